@@ -67,10 +67,16 @@ RenderTemplate(text, cols, cells) == IF ~HasAngles(text) THEN text ELSE SeqRepl(
 \* Tag.make_name: alnum and "._-=:,;()" kept, white space -> "_", everything else dropped.
 \* Token level: the tokens of these two sets are the only ones of the bounded family that are not kept.
 SpaceToks == {" "}
-DropToks  == {"/", "+", "#", "@", "!", "%", "<", ">"}
+DropToks  == {"/", "+", "#", "@", "!", "%", "<", ">", "\\", "$", "&"}
 TagSafe(text) == \A i \in DOMAIN text : text[i] \notin (SpaceToks \cup DropToks)
-MakeName(text) == Flat([i \in DOMAIN text |-> IF text[i] \in DropToks THEN <<>>
-                                             ELSE IF text[i] \in SpaceToks THEN <<"_">> ELSE <<text[i]>>])
+\* with unescape=True a backslash followed by "t" / "n" first becomes TAB / newline, i.e. "_"; any other backslash
+\* is dropped like the other characters that are not kept
+RECURSIVE MakeName(_)
+MakeName(text) ==
+   IF text = <<>> THEN <<>>
+   ELSE IF Head(text) = "\\" /\ Len(text) >= 2 /\ text[2] \in {"t", "n"} THEN <<"_">> \o MakeName(Tail(Tail(text)))
+   ELSE (IF Head(text) \in DropToks THEN <<>> ELSE IF Head(text) \in SpaceToks THEN <<"_">> ELSE <<Head(text)>>)
+        \o MakeName(Tail(text))
 \* make_row_tags: tags without placeholder are kept verbatim; parametrized tags are rendered, dropped if they still
 \* look parametrized, and normalised with make_name otherwise
 RECURSIVE MakeRowTags(_,_,_)
